@@ -169,3 +169,15 @@ Theorem C01_margin_begin_block_position : forall a s p m addr id c' o,
   MP.gap_eq (M.mkCtx s p m a addr id) c'.
 Proof. exact MP.process_mtp_gap. Qed.
 Print Assumptions C01_margin_begin_block_position.
+
+(* the margin begin blocker as a whole: interest payments to the fund address, liquidations with their payouts, every
+   margin-enabled pool in turn. What the module account holds beyond what the pools record (natively: beyond the sum over
+   all pools of balance + custody; per pool: beyond its external balance + custody) is unchanged. Premises: the sums
+   invariant of C13 and the start-of-block readiness MReady, which the begin blocker re-establishes (C13_begin_block). *)
+From Sif Require Proofs.MarginLoop.
+Module ML := Sif.Proofs.MarginLoop.
+Theorem C01_margin_begin_block : forall s rates s' closed,
+  MP.SumInv s -> ML.MReady s -> M.begin_block_margin s rates = Ok (s', closed) ->
+  ML.gapN s' = ML.gapN s /\ (forall a, a <> M.ROWAN -> ML.gapE s' a = ML.gapE s a).
+Proof. exact ML.begin_block_margin_gap. Qed.
+Print Assumptions C01_margin_begin_block.
